@@ -7,7 +7,7 @@ name, outp = sys.argv[1], sys.argv[2]
 D = f"/root/scratch/iso-{name}"
 V, R = D + "/verif", D + "/repo"
 seeds = sys.argv[3:] or sorted(d for d in os.listdir(V + "/seeded") if os.path.exists(f"{V}/seeded/{d}/patch.diff"))
-env = dict(os.environ, VERIF_REPO=R, CARGO_NET_OFFLINE="true")
+env = dict(os.environ, VERIF_REPO=R, CARGO_NET_OFFLINE="true", VERIF_NO_ESCALATE="1")
 res = {}
 for s in seeds:
     prop = s.split("-")[0]
